@@ -94,7 +94,19 @@ JudgeEval(e) ==
        LET fp == {T(k, t) : k \in SeqSet(orig.out.fkeys), t \in StepsOf(orig)} \cup {T(k, t) : k \in SeqSet(e.out.fkeys), t \in StepsOf(e)}
            paths == (DOMAIN orig.out.flat \cup DOMAIN e.out.flat) \ (Ratios \cup fp)
            v0(x, p) == IF HasP(x, p) THEN V(x, p) ELSE 0
-       IN {"result_differs_after_reload:" \o p : p \in {p \in paths : Abs(v0(e, p) - v0(orig, p)) > slack}}
+           \* a weighted energy BY SERVICE is a share (use of the service / EPB use of the carrier) of the carrier's
+           \* weighted energy, which an export credit can make much larger than the use: rounding the inputs to the
+           \* printed precision moves it by (rounding / EPB use of the carrier) x magnitude.  Where that bound is not
+           \* small (a carrier whose EPB use is a thousandth of the case's magnitude) these paths are not compared.
+           uses == {V(orig, Cr(c, "used.epus_an")) : c \in {c \in Crs(orig) : HasP(orig, Cr(c, "used.epus_an")) /\ V(orig, Cr(c, "used.epus_an")) > 0}}
+           minUse == IF uses = {} THEN 1 ELSE CHOOSE u \in uses : \A w \in uses : u <= w
+           amp == orig.mag \div minUse
+           bySrv == {p \in paths : \E c \in Crs(orig) \cup {"bal", "m2"} : \E s \in Services : \E ab \in {"a", "b"} : \E x \in {"ren", "nren", "co2"} :
+                                     p = (IF c \in {"bal", "m2"} THEN c ELSE "cr." \o c) \o ".we." \o ab \o "_by_srv." \o s \o "." \o x}
+           slackSrv == slack + (amp + 1) * NVals(orig) * ((Pow10(IMax(e.p, 0)) \div 200) + 1)
+       IN {"result_differs_after_reload:" \o p : p \in {p \in paths \ bySrv : Abs(v0(e, p) - v0(orig, p)) > slack}}
+          \cup (IF amp > 1000 THEN {}
+                ELSE {"result_differs_after_reload:" \o p : p \in {p \in bySrv : Abs(v0(e, p) - v0(orig, p)) > slackSrv}})
 
 Init == l = 1 /\ nbad = 0 /\ orig = <<>>
 Next ==
